@@ -179,6 +179,7 @@ def Dg (x : V) : Expr V → Option (Expr V)
   | cos a => (Dg x a).map (fun g => neg (mul (sin a) g))
   | exp a => (Dg x a).map (fun g => mul (exp a) g)
   | tanh a => (Dg x a).map (fun g => mul (sub one (mul (tanh a) (tanh a))) g)
+  | relun a n => (Dg x a).map (fun g => mul (mul (const (n : Rat)) (relun a (n - 1))) g)
 
 /-- pinned `laplacian`, per variable tensor `v`: the first `autograd` raised when `v` is unused; `continue` when the
     gradient tensor has no `grad_fn` (its graph mentions no input); the second `autograd` (of a column of the gradient
